@@ -147,6 +147,70 @@ def _exc_name(p) -> str:
     return u(e).split(".")[-1]
 
 
+def _cfg_fallback_rule(ctx, q):
+    """the NoSiblingAncestor handler of Block._wire_up_port as a search loop (hv/genloop.py: any way of writing the walk -- while loop,
+    generator helper consumed by any(..) / `in` / a for-else -- gives the same per-iteration outcomes over the walk's state s0):
+      s0 starts at the parent of the source node;  s0 == the block's CFG -> the walk ends and the link is added;
+      s0 is None or s0 == the root -> NotInSameCfg;   otherwise s0 becomes the parent of s0"""
+    from ..genloop import NotASearchLoop, search_loop
+    cf = ctx.cfn(q, subst=False)
+    tries = [s_ for s_ in cf.body if isinstance(s_, ast.Try)]
+    if len(tries) != 1 or len(tries[0].handlers) != 1:
+        return False, "expected one try with one handler"
+    tr = tries[0]
+    prefix = [s_ for s_ in cf.body[: cf.body.index(tr)] if isinstance(s_, (ast.Assign, ast.AnnAssign))]
+    hb = list(tr.handlers[0].body)
+    # the link is added after the walk, nowhere else
+    try:
+        sl = search_loop(prefix + hb + [ast.Return(value=ast.Constant("linked_"))])
+    except NotASearchLoop as e:
+        return False, f"the handler is not a single search loop ({e})"
+    if len(sl.state) != 1:
+        return False, f"walk state {sorted(sl.names.values())}"
+    init = u(sl.state["s0"])
+    srcp = [a_.arg for a_ in cf.args.args][3] if len(cf.args.args) > 3 else "p"
+    if init not in (f"self.hugr[{srcp}.out_port().node].parent",):
+        return False, f"the walk starts at {init}"
+    cfg = "self.hugr[self.parent_node].parent"
+    found = climb = refused_none = refused_root = False
+    for it in sl.iters:
+        at_cfg = [k for t, k in it.tests if u(t) in (f"{cfg} == s0", f"s0 == {cfg}")] + [not k for t, k in it.tests if u(t) in (f"{cfg} != s0", f"s0 != {cfg}")]
+        is_none = [not k for t, k in it.tests if u(t) == "s0 is not None"] + [k for t, k in it.tests if u(t) == "s0 is None"]
+        at_root = [k for t, k in it.tests if u(t) in ("s0 == self.hugr.root", "self.hugr.root == s0")]
+        if it.kind == "return":
+            # the walk ended: only at the CFG, and the link follows
+            links = [e for e in getattr(it, "effects", [])]
+            if not (at_cfg and at_cfg[0]) or u(it.value) != "'linked_'":
+                return False, "the walk succeeds without having reached the CFG: " + it.describe()[:160]
+            found = True
+        elif it.kind == "raise":
+            if "NotInSameCfg" not in u(it.value):
+                return False, "another exception: " + u(it.value)[:80]
+            if at_cfg and at_cfg[0]:
+                return False, "refused although the CFG was reached"
+            if is_none and is_none[0]:
+                refused_none = True
+            elif at_root and at_root[0]:
+                refused_root = True
+            else:
+                return False, "refused on " + it.describe()[:160]
+        else:
+            if (at_cfg and at_cfg[0]) or (is_none and is_none[0]) or (at_root and at_root[0]) or not (at_cfg and is_none and at_root):
+                return False, "climbs without having excluded the CFG, None and the root: " + it.describe()[:160]
+            if u(it.update.get("s0", ast.Constant(None))) != "self.hugr[s0].parent":
+                return False, "climbs to " + u(it.update.get("s0", ast.Constant(None)))
+            climb = True
+    if not (found and climb and refused_none and refused_root):
+        return False, f"found={found} climb={climb} refused at None={refused_none} at the root={refused_root}"
+    # the link is added after the loop (suffix of the handler), never inside it or before
+    hl = [i for i, s_ in enumerate(hb) if isinstance(s_, ast.While)]
+    links_after = [s_ for s_ in hb[hl[0] + 1:] if any(isinstance(n, ast.Call) and call_name(n) == "add_link" for n in ast.walk(s_))]
+    links_else = [n for s_ in hb[: hl[0] + 1] for n in ast.walk(s_) if isinstance(n, ast.Call) and call_name(n) == "add_link"]
+    if len(links_after) != 1 or links_else:
+        return False, "the link is not added exactly once, after the walk"
+    return True, ""
+
+
 def r1_guards(ctx) -> None:
     prog = ctx.program
     from ..tmpl import T, tmatch
@@ -195,23 +259,10 @@ def r1_guards(ctx) -> None:
     ctx.check(ok, "C13.R1", "build.cfg.Block._wire_up_port: falls back only on NoSiblingAncestor", mod.path, fn.lineno,
               "the dominator-edge fallback may only catch NoSiblingAncestor from the ordinary wiring", fn, found=str(sorted(set(exc_tests))))
     if ok:
-        fb = [p for p in ps if any(u(t) == "except_(NoSiblingAncestor)" for t, _ in p.tests)]
-        refusals = [p for p in fb if p.kind == "raise" and _exc_name(p) == "NotInSameCfg"]
-        linked = [p for p in fb if p.kind != "raise" and p.find_effect("self.hugr.add_link(ANY_, ANY_)")]
-        # the refusal is raised inside the climbing loop when the walk reaches None or the root
-        none_case = any(any(isinstance(t, ast.Compare) and isinstance(t.ops[0], ast.IsNot) and not k for t, k in p.tests) for p in refusals)
-        root_case = any(any("self.hugr.root" in u(t) and k for t, k in p.tests) for p in refusals)
-        in_loop = bool(refusals) and all(any(isinstance(t, ast.Call) and u(t.func) == "in_loop_" for t, _ in p.tests) for p in refusals)
-        ok2 = none_case and root_case and in_loop and bool(linked) and not any(p.find_effect("self.hugr.add_link(ANY_, ANY_)") for p in refusals)
-        for p in linked:
-            loops = [i for i, e in enumerate(p.effects) if isinstance(e, ast.While) and any(isinstance(x, ast.Raise) and "NotInSameCfg" in u(x) for x in ast.walk(e))]
-            links = [i for i, e, _ in p.find_effect("self.hugr.add_link(ANY_, ANY_)")]
-            climbs = [e for e in p.effects if isinstance(e, ast.While) and any(
-                isinstance(x, ast.Assign) and isinstance(x.targets[0], ast.Name) and f"[{x.targets[0].id}].parent" in u(x.value) for x in ast.walk(e))]
-            ok2 = ok2 and bool(loops) and bool(climbs) and all(i > loops[0] for i in links)
+        ok2, why = _cfg_fallback_rule(ctx, q)
         ctx.check(ok2, "C13.R1", "build.cfg.Block._wire_up_port: NotInSameCfg before the fallback link", mod.path, fn.lineno,
-                  "the fallback must climb from the source's parent to the enclosing CFG, raise NotInSameCfg when it reaches None or the root first, "
-                  "and add the link only after that walk succeeded", fn, found="; ".join(p.describe() for p in fb)[:400])
+                  "the fallback must climb from the source's parent to the enclosing CFG, raise NotInSameCfg when it reaches None or the root "
+                  "first, and add the link only after that walk succeeded" + (f" [{why}]" if why else ""), fn)
     # ---- DfBase.add: integer wire in an untracked builder
     q = "hugr.build.dfg.DfBase.add"
     fn_o, mod, cls = ctx.locate(q)
@@ -377,6 +428,10 @@ MUTANTS = [
          new="        self.hugr.add_link(src, node.inp(offset))\n        if node_ancestor is None:\n            raise NoSiblingAncestor(src.node.idx, node.idx)\n        if node_ancestor != node:\n            self.add_state_order(src.node, node_ancestor)"),
     dict(name="not-in-cfg-unchecked", file=CF, expect="C13.R1", old="                if src_parent is None or src_parent == self.hugr.root:\n                    raise NotInSameCfg(src.node.idx, node.idx) from e\n", new="                if src_parent is None:\n                    break\n"),
     dict(name="fallback-catches-all", file=CF, expect="C13.R1", old="        except NoSiblingAncestor as e:", new="        except Exception as e:"),
+    dict(name="walk-ignores-root", file=CF, expect="C13.R1", old="                if src_parent is None or src_parent == self.hugr.root:", new="                if src_parent is None:"),
+    dict(name="walk-starts-at-source", file=CF, expect="C13.R1", old="        src_parent = self.hugr[src.node].parent", new="        src_parent = src.node"),
+    dict(name="link-before-walk", file=CF, expect="C13.R1",
+         old="            while cfg_node != src_parent:", new="            self.hugr.add_link(src, node.inp(offset))\n            while cfg_node != src_parent:"),
     dict(name="case-mismatch-accepted", file=CL, expect="C13.R1", old="            if outputs != self.parent_op._outputs:\n                msg = \"Mismatched case outputs.\"\n                raise ConditionalError(msg)", new="            pass"),
     dict(name="case-built-twice", file=CL, expect="C13.R1", old="        if built:\n            msg = f\"Case {case_id} already built.\"\n            raise ConditionalError(msg)\n", new=""),
     dict(name="case-marked-before-check", file=CL, expect="C13.R1",
